@@ -241,6 +241,26 @@ def run(task, ctx):
             for kind, got, exp in v:
                 ctx.violation("solver:AndersonCD.working_set", kind, dict(op="live", comp=comp), got, exp,
                               where=dict(solver="AndersonCD", p0=task["p0"], positive=comp["penalty"]["positive"]))
+        if task["p0"] == 1:
+            # larger working-set dynamics: AR(0.95) 20x40 designs whose first ten columns are rescaled by 5, default p0 and budgets,
+            # tol 1e-8, both scoring strategies: must converge (the inner stopping test must use the constants of the working set)
+            from mc.drivers import c03
+            for seed in range(12 if ctx.tier == "quick" else 20):
+                X, y = c03.ar_design(seed, 20, 40, 0.95)
+                X = X.copy()
+                X[:, :10] *= 5.0
+                amax = float(np.max(np.abs(X.T @ y))) / 20
+                for fr in (0.05, 0.01):
+                    strat = "fixpoint" if task["fit_intercept"] else "subdiff"
+                    comp = dict(solver=dict(name="AndersonCD", kw=dict(tol=1e-8, ws_strategy=strat, fit_intercept=False)), datafit=dict(name="Quadratic"),
+                                penalty=dict(name="L1", alpha=fr * amax, positive=False), X=X.tolist(), y=y.tolist(), storage="denseF",
+                                xid=f"ar20x40s{seed}-rescaled", live=True)
+                    v, res = exec_live(comp)
+                    ctx.count("liveness_cells")
+                    ctx.obs(res.get("w"), nontrivial=res["status"] == "ok" and bool(np.any(res["w"])))
+                    for kind, got, exp in v:
+                        ctx.violation("solver:AndersonCD.working_set", kind, dict(op="live", comp=comp), got, exp,
+                                      where=dict(solver="AndersonCD", p0=10, positive=False, family="ar-rescaled"))
         ctx.sample(dict(op="liveness", p0=task["p0"], fit_intercept=task["fit_intercept"]))
         return
     cells = accepted_cells()
@@ -273,7 +293,7 @@ def exec_live(comp):
         v.append(("non_finite_output", res["w"].tolist(), "finite"))
     elif not res["stop_crit"] <= 1e-8:
         v.append(("does_not_converge_within_generous_budget", dict(stop_crit=res["stop_crit"], w=res["w"].tolist()),
-                  "stop_crit <= 1e-8 within max_iter=60 x max_epochs=5000"))
+                  "stop_crit <= 1e-8 within the budget (max_iter 60 / default 50)"))
     else:
         viol = C.certificate(comp, res["w"])[0]
         if viol > 1e-8 * (1 + 1e-6) + 1e-10 * 100:
